@@ -4,7 +4,7 @@ from __future__ import annotations
 import ast
 
 from ..core import (AnalysisError, FuncInfo, Project, attr_chain, const_int, enclosing, expand, guards_of, local_defs,
-                    term, unparse)
+                    term, unparse, with_helpers)
 from . import c04
 
 SC = "codelimit.common.Scanner"
@@ -76,20 +76,30 @@ def rule_R3(ctx, prj, rid="R3"):
     ctx.rule(rid, "a measurement's span starts at the location of the token at header.token_range.start and ends at "
                   "(line of the token at block.end - 1, its column + len(its text)) - both read from the same "
                   "comment-free list; its name is the header's name; its length is count_lines of that scope", floor=4)
-    fi = prj.func(f"{SC}:scan_file")
-    ms = [c for c in fi.calls() if attr_chain(c.func) == "Measurement"]
-    if len(ms) != 1:
-        raise AnalysisError(f"scan_file: expected one Measurement(...) construction, found {len(ms)}")
-    c = ms[0]
+    fi0 = prj.func(f"{SC}:scan_file")
+    found = [(f, c) for f in with_helpers(prj, fi0) for c in f.calls() if attr_chain(c.func) == "Measurement"]
+    if len(found) != 1:
+        raise AnalysisError(f"scan_file: expected one Measurement(...) construction, found {len(found)}")
+    fi, c = found[0]
     args = list(c.args) + [None] * 4
     kw = {k.arg: k.value for k in c.keywords}
     name, start, end, length = (args[0] or kw.get("unit_name"), args[1] or kw.get("start"), args[2] or kw.get("end"), args[3] or kw.get("value"))
-    loops = enclosing(fi, c, ast.For)
-    sv = unparse(loops[0].target) if loops else "scope"
+    if any(x is None for x in (name, start, end, length)):
+        raise AnalysisError(f"{fi.site(c)}: arguments of Measurement(...) not understood")
+    import re
+    loops = enclosing(fi, c, (ast.For, ast.ListComp, ast.GeneratorExp))
+    sv = None
+    for lp in loops:
+        tgt = lp.target if isinstance(lp, ast.For) else lp.generators[0].target
+        if isinstance(tgt, ast.Name):
+            sv = tgt.id
+            break
+    if sv is None:
+        mm = re.search(r"(\w+)\.header\b", unparse(expand(fi, start)) + " " + unparse(expand(fi, name)))
+        sv = mm.group(1) if mm else (fi.params()[0] if fi.params() else "scope")
     L = None
     st = expand(fi, start)
     t_start = unparse(st)
-    import re
     m = re.fullmatch(r"(.+)\[" + re.escape(sv) + r"\.header\.token_range\.start\]\.location", t_start)
     if m:
         L = m.group(1)
